@@ -49,7 +49,8 @@ META = dict(
                 "only passed through): for every number of windows, every mask pair, every n and max_iterations >= 1 the masks after the call "
                 "equal the published iteration applied `result` times (ghost sequences PM/WM defined by their one-step axioms), `result` is the "
                 "first iteration at which the published stopping rule holds or max_iterations, no window is re-accepted, and only the two masks "
-                "are written. Structural obligations on the same function are kept. That the accessors compute the textbook statistics is C05's "
+                "are written. The entry point on an azimuthal object: range update then iteration on every azimuth with the caller's arguments, largest "
+                "iteration count returned. Structural obligations on the driver are kept. That the accessors compute the textbook statistics is C05's "
                 "contract; the outer wrapper (peak search set-up, azimuthal maximum), window-order and amplitude-scale invariance are evaluated "
                 "natively against an independent re-implementation of Cox et al. (2020) - labelled bounded",
     trusted_base=["A-REAL", "numpy/scipy", "the AST pattern matcher of the structural task"],
@@ -171,3 +172,74 @@ FD = Contract(
           "max_iterations; never re-accepts; only the two masks are written")
 
 TASKS.append(FunctionTask(FD, registry=_accessors(), clauses=["exactly the accept/reject decisions and iteration count of the published algorithm; never re-accepts; at most max_iterations"]))
+
+
+# ---------------------------------------------------------------------------------------------------------------------
+# frequency_domain_window_rejection (entry point): every HvsrTraditional of the object gets the peak search in the requested range first and the
+# iteration second, with the caller's arguments; the value returned is the largest iteration count.  Object state is one abstract content
+# per object id in a ghost map (update_peaks_bounded -> UPB, the driver above -> FDW; iteration count ITERS of the content it started from).
+from pyvc.core import StrV, NONE, DictV, ClsV, Tup
+from pyvc.objects import new_symlist, SObj
+
+NAZ = z3.Int("n_hvsrs")
+HIDS = z3.Const("hvsr_ids", z3.ArraySort(I, I))
+HC0 = z3.Const("content_on_entry", z3.ArraySort(I, I))
+UPB = z3.Function("UPB", I, R, R, I, I)                 # content after update_peaks_bounded(range, kwargs-code)
+FDW = z3.Function("FDW", I, R, I, I, I, I)              # content after the driver (n, max_iterations, distribution_fn, distribution_mc)
+ITERS = z3.Function("ITERS", I, R, I, I, I, I)          # iterations the driver reports for that content
+SLO, SHI = z3.Reals("f_low f_high")
+KWC = z3.Int("find_peaks_kwargs_code")
+
+
+def _after_upb(h):
+    return UPB(z3.Select(HC0, h), SLO, SHI, KWC)
+
+
+def _m_upb(ex, st, args, kw, node):
+    h = args[0]
+    lo, hi = kw["search_range_in_hz"]
+    st.env["__HC"] = z3.Store(st.env["__HC"], h.id, UPB(z3.Select(st.env["__HC"], h.id), lit_(lo), lit_(hi), kw["find_peaks_kwargs"]))
+    return NONE
+
+
+def _m_driver(ex, st, args, kw, node):
+    h = kw["hvsr"]
+    c = z3.Select(st.env["__HC"], h.id)
+    a = (kw["n"], kw["max_iterations"], kw["distribution_fn"], kw["distribution_mc"])
+    st.env["__HC"] = z3.Store(st.env["__HC"], h.id, FDW(c, *a))
+    st.pc.append(z3.And(ITERS(c, *a) >= 1, ITERS(c, *a) <= kw["max_iterations"]))      # the driver's proved postcondition
+    return ITERS(c, *a)
+
+
+from pyvc.core import lit as lit_
+
+
+def _entry_inputs(ex, st):
+    hv = new_symlist(ex, st, "HvsrTraditional", length=NAZ, arr=HIDS, owner="param:hvsr.hvsrs", name="hvsrs")
+    st.env["hvsr"] = sym_obj(ex, st, "HvsrAzimuthal", {"hvsrs": hv, "meta": DictV({})}, owner="param:hvsr")
+    st.env["n"], st.env["max_iterations"], st.env["distribution_fn"], st.env["distribution_mc"] = nn, maxit, dfn, dmc
+    st.env["search_range_in_hz"], st.env["find_peaks_kwargs"] = Tup((SLO, SHI)), KWC
+    st.env["__HC"] = HC0
+    st.env["NAZ"] = NAZ
+    a, b = z3.Ints("a!in b!in")
+    return [NAZ >= 1, maxit >= 1, z3.ForAll([a, b], z3.Implies(z3.And(0 <= a, a < b, b < NAZ), z3.Select(HIDS, a) != z3.Select(HIDS, b)))]
+
+
+_ARGS = (nn, maxit, dfn, dmc)
+GH_EN = {"HC": FuncV(lambda ex, st, a, k, n_: z3.Select(st.env["__HC"], a[0]), "HC"), "HC0": lambda h: z3.Select(HC0, h), "HID": lambda a: z3.Select(HIDS, a),
+         "DONE": lambda h: FDW(_after_upb(h), *_ARGS), "IT": lambda h: ITERS(_after_upb(h), *_ARGS)}
+ENTRY = Contract(
+    qual="hvsrpy.window_rejection.frequency_domain_window_rejection",
+    params=["hvsr", "n", "max_iterations", "distribution_fn", "distribution_mc", "search_range_in_hz", "find_peaks_kwargs"], ghost=GH_EN,
+    make_inputs=_entry_inputs, obj_havoc={"hvsr": lambda ex, st, v: v},
+    ensures=["forall(a, 0, NAZ, HC(HID(a)) == DONE(HID(a)))", "forall(a, 0, NAZ, IT(HID(a)) <= result)", "exists(a, 0, NAZ, IT(HID(a)) == result)"],
+    loops={0: ["forall(a, 0, _k0, HC(HID(a)) == DONE(HID(a)))", "forall(a, _k0, NAZ, HC(HID(a)) == HC0(HID(a)))",
+               "forall(a, 0, _k0, IT(HID(a)) <= max_performed_iterations)",
+               "(_k0 == 0 and max_performed_iterations == 0) or exists(a, 0, _k0, IT(HID(a)) == max_performed_iterations)"]},
+    modifies=["param:hvsr"], notes="every azimuth: peak search in the requested range, then the iteration with the caller's arguments; returns the largest count")
+ENTRY.ghost_state = ("__HC",)
+TASKS.append(FunctionTask(ENTRY, registry={"HvsrTraditional.update_peaks_bounded": FuncV(_m_upb, "update_peaks_bounded")},
+                          module_env={"HvsrTraditional": ClsV("HvsrTraditional"), "HvsrAzimuthal": ClsV("HvsrAzimuthal"),
+                                      "_frequency_domain_window_rejection": FuncV(_m_driver, "_frequency_domain_window_rejection")},
+                          label="hvsrpy.window_rejection.frequency_domain_window_rejection[azimuthal]",
+                          clauses=["azimuthal: the algorithm runs on every azimuth after the range update; the maximum iteration count is returned"]))
